@@ -107,6 +107,12 @@ def execute(
     else:
         raise RuntimeError("Unknown operation type %s." % operation.operation)
 
+    # Collecting the root fields coerces `@skip` / `@include` arguments which
+    # can fail (CoercionError): do it before the execution stage starts.
+    root_fields = executor.collect_fields(
+        root_type, operation.selection_set.selections
+    )
+
     instrumentation.on_execution_start()
 
     def _on_finish(data):
@@ -116,14 +122,7 @@ def execute(
     return runtime.ensure_wrapped(
         runtime.map_value(
             runtime.unwrap_value(
-                exe_fn(
-                    root_type,
-                    initial_value,
-                    [],
-                    executor.collect_fields(
-                        root_type, operation.selection_set.selections
-                    ),
-                )
+                exe_fn(root_type, initial_value, [], root_fields)
             ),
             _on_finish,
         )
